@@ -26,17 +26,20 @@ RULE = ("(a) input stream: PointID pairs from a pool of ASCII / digit / leading-
         "approximate orientation), permutation of points/clusters/observations, renaming (order preserving and not; "
         "numeric-looking, leading zeros, white space, UTF-8, XML-special), gon->degrees with equivalent stdev, from<->to "
         "swaps, 8 axes x 2 angle senses}; distinct by (network text, transformation), non-trivial = the original adjusts")
-LEVEL_TEXT = ("partial: Lean 4 theorems over R about the linearisation regenerated from local_linearization.cpp on every "
-              "run: every observation type depends on coordinates only through differences (translation), turning a "
-              "circle changes only the right-hand sides of that set by a common amount along the orientation column "
-              "unless a value crosses the +-200 gon wrap, swapping the ends leaves distance rows unchanged and negates "
-              "height/coordinate-difference rows, mirroring y negates exactly the y-columns (the angular right-hand side "
-              "only up to whole circles), index assignment commutes with renaming; transported to solutions "
-              "(coordinates, residuals, sum of squares) by the LS-layer lemmas perm/shift. PointID::operator< is proved to be "
-              "a strict total order on all byte strings, the sexagesimal conversion and the 1/0.324 rescaling are proved "
-              "exact. NOT proved: the iteration to convergence, the approximate-orientation median (C06), number "
-              "parsing/printing, and the statistics derived from the cofactor matrix; these are explored by the "
-              "metamorphic search on gama-local only.")
+LEVEL_TEXT = ("proof for the linearised problem, exploration beyond it: Lean 4 theorems over R about the linearisation "
+              "regenerated from local_linearization.cpp on every run: every observation type depends on coordinates only "
+              "through differences (translation), turning a circle changes only the right-hand sides of that set by a common "
+              "amount along the orientation column unless a value crosses the +-200 gon wrap, swapping the ends leaves "
+              "distance rows unchanged and negates height/coordinate-difference rows, mirroring y negates exactly the "
+              "y-columns (and the rows / orientation columns of angular types, right-hand sides exactly except at +200 gon) "
+              "for all 13 types, the design matrices of two processing orders are related by explicit row/column "
+              "equivalences built from the index tables, renaming leaves the rows untouched; transported to solutions "
+              "(coordinates, residuals, sum of squares, regularisation) by the LS-layer lemmas perm/shift and two sign "
+              "lemmas; the normalisation of inconsistent axes/angles conjugates the cluster covariances as the transport "
+              "requires. PointID::operator< is proved to be a strict total order on all byte strings, the sexagesimal "
+              "conversion and the 1/0.324 rescaling are proved exact. NOT proved: the iteration to convergence, the "
+              "approximate-orientation median (C06), number parsing/printing, and the statistics derived from the cofactor "
+              "matrix; these are explored by the metamorphic search on gama-local only.")
 LEVEL_NOTE = ("The theorems are about exact real arithmetic and about one linearisation; equality of two complete "
               "gama-local runs is explored with tolerances: coordinates 1e-6 m, linear residuals 2e-3 mm, angular "
               "residuals 2e-2 cc, relative 2e-5 for standard deviations / ellipses, 1e-3 for the sum of squares, "
@@ -195,9 +198,10 @@ def flip_cases(ctx, tmp, n):
         f6 = lambda v: float(f"{v:.6f}")
         for pid, q in pts:
             toks.append(f"{1 if 'x' in q else 0} {float2hex(f6(q.get('x', 0.0)))} {float2hex(f6(q.get('y', 0.0)))} {float2hex(f6(q.get('z', 0.0)))}")
-        obs = []
         g2r = lambda g: float(f"{g:.6f}") * 3.14159265358979323846 / 200.0
+        toks.append(str(len(net["obs"])))
         for o in net["obs"]:
+            obs, cov = [], []
             for it in o["items"]:
                 if o["kind"] == "obs":
                     v = f6(it["val"]) if it["t"] in ("distance", "s-distance") else g2r(it["val"])
@@ -210,8 +214,15 @@ def flip_cases(ctx, tmp, n):
                     for k in ("x", "y", "z"):
                         if k in it:
                             obs.append((k, f6(it[k])))
-        toks.append(str(len(obs)))
-        toks += [f"{k} {float2hex(v)}" for k, v in obs]
+            if o["kind"] in ("vectors", "coords"):       # clusters with an explicit <cov-mat>: dense matrix on the op line
+                n_ = len(o["cov"])
+                band = o.get("band", n_ - 1)
+                band = n_ - 1 if band is None else band
+                cov = [float(o["cov"][i][j]) if abs(i - j) <= band else 0.0 for i in range(n_) for j in range(n_)]
+            dim = len(obs) if cov else 0
+            toks.append(f"{len(obs)} {dim}")
+            toks += [f"{k} {float2hex(v)}" for k, v in obs]
+            toks += [float2hex(v) for v in cov]
         cases.append([" ".join(toks)])
     return cases
 
@@ -224,7 +235,7 @@ def correspond_input(ctx, corr, tmp):
     cases += fl
     impl, crashes = run_cases(exe, cases)
     model, _ = run_cases(ctx.driver("drv_input"), cases)
-    numeric = eqn = lts = degs = flips = 0
+    numeric = eqn = lts = degs = flips = covflips = 0
     for i, c in enumerate(cases):
         k = kinds[i]
         key = None
@@ -255,11 +266,14 @@ def correspond_input(ctx, corr, tmp):
             degs += t[:2] == ["ok", "1"]
         elif k[0] == "flip":
             flips += impl[i][0].split("#")[0] != impl[i][0].split("#")[2]
+            covflips += any(t.startswith("0x") and t[2] in "89abcdef" for seg in impl[i][0].split("#")[0].split(":")[1:]
+                            for t in seg.split(";")[0].split())
     corr.count("pid_pairs_ordered", lts)
     corr.count("pid_pairs_equal_after_normalisation", eqn)
     corr.count("pid_pairs_with_numeric_id", numeric)
     corr.count("sexagesimal_literals_accepted", degs)
     corr.count("flip_networks_inconsistent", flips)
+    corr.count("flip_networks_with_negative_covariance_after_removal", covflips)
     if numeric < 50 or eqn < 20:
         corr.inconclusive.append("PointID generator produced too few numeric / equal pairs")
     if flips < 5:
@@ -474,8 +488,7 @@ def split_groups(p):
 
 def site_of(p):
     k = classify_payload(p)
-    return {"F15": "Orientation::orientation", "C07-F1": "LocalNetwork::change_y_signs_for_inconsistent_system_",
-            "C07-F2": "LocalNetwork::vyrovnani_ (sigma_L)", "C07-F3": "LocalNetworkXML::coordinates/std_error_ellipses"}.get(k, "gama-local")
+    return {"C07-F2": "LocalNetwork::vyrovnani_ (sigma_L)", "C07-F3": "LocalNetworkXML::coordinates/std_error_ellipses"}.get(k, "gama-local")
 
 
 # ------------------------------------------------------------------ known findings (narrow signatures on the shrunk replay)
@@ -484,19 +497,8 @@ def classify_payload(p):
         return None
     fields = set(p.get("fields", []))
     spec = p.get("spec", {})
-    # F15: Orientation::orientation medians shifts wrapped to [-pi, pi]: every direction of a station gets a +-200 gon
-    # absolute term and is removed.  Signature: in exactly one member of the pair, the rows of "Outlying absolute terms"
-    # are all directions with 1.9e6 < |term| < 2.1e6 cc and every station concerned has >= 3 such rows (or all its
-    # directions); the other member has no outlying row.
-    oa, ob = p.get("outlying", [[], []])
-    for rows, other in ((oa, ob), (ob, oa)):
-        if rows and not other and all(r["type"] == "dir." and 1.9e6 < abs(r["term"]) < 2.1e6 for r in rows):
-            per = {}
-            for r in rows:
-                per[r["from"]] = per.get(r["from"], 0) + 1
-            sd = p.get("seam_distance")
-            if all(v >= 2 for v in per.values()) and spec.get("kind") == "rotate" and sd is not None and sd < 0.02:
-                return "F15"
+    # (F15 orientation seam and C07-F1 mirrored covariances are FIXED in /repo (01e764d, c7fddb0): they are no longer
+    #  classified; their shrunk pairs stay in corpus/C07 as regression inputs and must pass.)
     # C07-F2 (root cause = C09-F1): sigma_L / qrr / f / std-residual of observations inside a cluster with a
     # non-diagonal covariance matrix depend on the position of the observation in the cluster
     if fields and fields <= {"stdev", "qrr", "f", "std-residual"} and p.get("correlated_clusters") and \
@@ -512,10 +514,6 @@ def classify_payload(p):
                       1e-4 * abs(float(re.search(r"expected (\S+) got (\S+)", v["detail"]).group(1))) + 1e-12 for v in covs)
         if fields and fields <= {"cov", "ellipse-alpha"} and flipped:
             return "C07-F3"
-        # C07-F1: remove_inconsistency does not change the sign of covariances between y and the other components
-        if p.get("correlated_clusters") and fields & {"adjusted-x", "adjusted-y", "adjusted-z", "residual", "ellipse-major",
-                                                        "ellipse-minor", "sum_of_squares", "m0_apost"}:
-            return "C07-F1"
     return None
 
 
